@@ -19,10 +19,15 @@ frows = ["| property | status | commit | signature | what |", "|---|---|---|---|
 for f in kf:
     frows.append("| %s | %s | %s | `%s` | %s |" % (f.get("property"), f.get("status", "known"), f.get("commit", ""), f.get("signature"), f.get("what", "").replace("|", "/")[:300]))
 findings = "\n".join(frows)
-srows = ["| seed | property | files | needs to manifest | detected by |", "|---|---|---|---|---|"]
+srows = ["| seed | property | files | needs to manifest | detected by | last sweep |", "|---|---|---|---|---|---|"]
 for m in sorted(glob.glob(os.path.join(ROOT, "seeded", "*", "meta.json"))):
     d = load(m)
-    srows.append("| %s | %s | %s | %s | %s |" % (os.path.basename(os.path.dirname(m)), d.get("property"), " ".join(d.get("files", [])), (d.get("needs_to_manifest") or "").replace("\n", " ").replace("|", "/")[:220], d.get("detected_by") or "not yet run"))
+    ls = d.get("last_sweep") or {}
+    sweep = ("%s@%s: %s %s" % (ls.get("check", ""), ls.get("repo_head", ""), ls.get("result", ""), ls.get("signature", ""))) if ls else ""
+    det = d.get("detected_by") or "not yet run"
+    if d.get("obsolete"):
+        det = "OBSOLETE: " + d["obsolete"][:260]
+    srows.append("| %s | %s | %s | %s | %s | %s |" % (os.path.basename(os.path.dirname(m)), d.get("property"), " ".join(d.get("files", [])), (d.get("needs_to_manifest") or "").replace("\n", " ").replace("|", "/")[:220], det.replace("|", "/"), sweep))
 seeds = "\n".join(srows)
 lrows = []
 for pf in sorted(glob.glob(os.path.join(ROOT, "props", "C??.json"))):
